@@ -5,7 +5,7 @@
  * on a real Host/Service with real Users, a UserGroup, TimePeriods, a Dependency, a Downtime and a
  * NotificationCommand whose `execute` is a native Function that records the deliveries, under a virtual clock.
  *
- * The line protocol is specified in _work/scratch/c03/PROTOCOL.txt (lean/Driver/C03.lean parses it):
+ * The line protocol is specified in corpus/C03/PROTOCOL.txt (lean/Driver/C03.lean parses it):
  *   C <kind h|s> <interval> <tbegin|-> <tend|-> <typeFilter> <stateFilter> <hasPeriod> <nusers> {<attach> <utf> <usf> <uhasPeriod>}*
  *   S/V/D/A/L/R/K/G/E/P/Y/W/U/F ...   environment operations, echoed as "<op> |"
  *   N <typebit> <dt> | <20 env ints> ; <users> ; <events> ; <cmds> ; <npu> <lns> <next> <noMore> <number> <sup>
